@@ -481,6 +481,23 @@ pub fn random_run<W: Write>(tr: &mut Trace<W>, cfg: Cfg, prof: &Profile, seed: u
                 continue;
             }
         }
+        if !prof.events && prof.comps.len() >= 2 && rng.chance(1, 25) {
+            // several structural changes of one entity spread over the frames of one tick window
+            let x = rng.pick(&ents).clone();
+            let (k1, k2) = (prof.comps[0], prof.comps[1]);
+            if sim.op_enabled("Remove", &json!({"e": x, "k": k1})) && sim.op_enabled("Remove", &json!({"e": x, "k": k2})) {
+                tr.step(&mut sim, "Remove", json!({"e": x, "k": k1}));
+                tr.step(&mut sim, "SrvFrame", json!({"tick": false, "dt": 0}));
+                tr.step(&mut sim, "Remove", json!({"e": x, "k": k2}));
+                if rng.chance(1, 3) {
+                    tr.step(&mut sim, "SrvFrame", json!({"tick": false, "dt": 0}));
+                    if !(prof.rel && prof.clean) {
+                        tr.step(&mut sim, "Despawn", json!({"e": x}));
+                    }
+                }
+                continue;
+            }
+        }
         if prof.sess && !prof.events && rng.chance(1, 25) {
             // a client leaves while a mutate message is buffered for an update message it never gets
             let c = rng.pick(&clients).clone();
